@@ -38,7 +38,8 @@ func newMsgOf(c *chain.Chain, url string) sdk.Msg {
 
 // fillEnv is the pool that string/bytes fields are taken from.
 type fillEnv struct {
-	Accounts []string // bech32 addresses
+	Accounts []string // bech32 addresses of accounts that hold a key (they can be creators)
+	Keyless  []string // further valid addresses nobody can sign for (gauge accounts, module accounts): never a creator
 	Names    []string // rns names
 	Merkles  [][]byte
 	Starts   []int64
@@ -119,6 +120,9 @@ func genStringField(rt *rapid.T, label, name string, env *fillEnv) string {
 		}
 		if r == 2 {
 			return strings.ToUpper(pick(env.Accounts)) // all-upper-case bech32: same account, other spelling
+		}
+		if r == 3 && len(env.Keyless) > 0 {
+			return pick(env.Keyless)
 		}
 		return pick(env.Accounts)
 	case lname == "name":
